@@ -16,12 +16,19 @@ def run(tier):
     n = 0
     with contextlib.redirect_stdout(buf):
         screen = O.build_screen()
-        O.standalone_mvn_checks()
+        try:
+            O.standalone_mvn_checks()
+        except Exception as e:
+            O.FAILURES.append("mvn routine raised %r" % (e,))
         cfgs = [(1, False), (2, True), (3, False), (4, False), (6, True)]
         if tier == "thorough":
             cfgs += [(d, e) for d in (1, 2, 3, 5, 8) for e in (False, True)]
         for k, (D, start_empty) in enumerate(cfgs):
-            O.run_scenario(screen, D, seed=1000 + D + 17 * k, start_empty=start_empty); n += 1
+            try:
+                O.run_scenario(screen, D, seed=1000 + D + 17 * k, start_empty=start_empty)
+            except Exception as e:  # the sampler raised where the oracle expects a draw
+                O.FAILURES.append("scenario D=%d start_empty=%s: the real code raised %r" % (D, start_empty, e))
+            n += 1
     return [f for f in O.FAILURES if f], n
 
 
